@@ -8,6 +8,7 @@ that the models are accepted by the ONNX checker.
 
 from __future__ import annotations
 
+import random
 import zlib
 
 import numpy as np
@@ -23,7 +24,7 @@ class Params(dict):
         n_nodes=8, n_inputs=2, n_inits=2, n_outputs=2, p_if=0.15, p_call=0.1, n_functions=1, depth=2, typed=True,
         name_noise=0.0, unsorted=False, p_dup=0.2, p_const=0.15, p_multi=0.1, p_unused=0.1, p_optional=0.05, metadata=False,
         big_init=False, dup_inits=False, unused_function=False, ir_version=10, init_as_input=0.2, lazy_failing_init=False,
-        p_func_subgraph=0.35, annot_noise=0.0, name_style=0, func_name_overlap=0.0, p_graphs=0.0, more_ops=False, alias_outputs=0.0,
+        p_func_subgraph=0.35, annot_noise=0.0, name_style=0, func_name_overlap=0.0, p_graphs=0.0, more_ops=False, alias_outputs=0.0, ref_graph_attrs=0.0,
     )  # fmt: skip
 
     def __init__(self, **kw):
@@ -54,6 +55,20 @@ class Builder:
         self.all_nodes: list = []
         self.uses_custom = False
         self.ref_attr = None  # name of the enclosing function's attribute parameter while a function body is built
+        self.graph_param_functions: set = set()  # ids of functions that take their If branches as graph attributes
+
+    def _branch_graph(self, bname: str):
+        """A small closed graph for a call site to pass as a graph-valued attribute."""
+        k = ir.Node("", "Constant", [], [ir.AttrTensor("value", ir.Tensor(np.full((2, 3), float(len(bname)), dtype=np.float32), name=self.fresh("gt")))], name=self.fresh("n"))
+        k.outputs[0].name = self.fresh("v")
+        self._type_out(k.outputs[0])
+        self.all_nodes.append(k)
+        return ir.Graph([], [k.outputs[0]], nodes=[k], name=self.fresh(bname[:4]))
+
+    def call_attributes(self, f) -> list:
+        if id(f) not in self.graph_param_functions:
+            return []
+        return [ir.AttrGraph("then_graph", self._branch_graph("then_graph")), ir.AttrGraph("else_graph", self._branch_graph("else_graph"))]
 
     def fresh(self, prefix: str) -> str:
         self.k += 1
@@ -131,7 +146,7 @@ class Builder:
             elif x < p["p_const"] + p["p_if"] + p["p_call"] and self.functions and avail:
                 f = rng.choice(self.functions)
                 ins = [rng.choice(avail) for _ in f.inputs]
-                n = ir.Node(f.domain, f.name, ins, [ir.AttrFloat32("alpha", 1.0 + rng.randrange(3))] if rng.random() < 0.5 else [], num_outputs=len(f.outputs), name=self.fresh("n"))
+                n = ir.Node(f.domain, f.name, ins, ([ir.AttrFloat32("alpha", 1.0 + rng.randrange(3))] if rng.random() < 0.5 else []) + self.call_attributes(f), num_outputs=len(f.outputs), name=self.fresh("n"))
             elif x < p["p_const"] + p["p_if"] + p["p_call"] + p.get("p_graphs", 0.0) and depth > 0 and avail:
                 # a custom-domain operator carrying a LIST of graphs in one attribute (AttributeType.GRAPHS)
                 bodies = []
@@ -300,7 +315,31 @@ def gen_model(rng, p: Params | None = None) -> ir.Model:
         fg, _ = b.build_body([], fdepth, rng.randrange(1, 5), fin, 1, b.fresh("fbody"))
         b.ref_attr = None
         b.functions = saved
-        f = ir.Function("fdom", f"F{i}", "", graph=fg, attributes=[ir.Attr("alpha", ir.AttributeType.FLOAT, 1.0)] if has_attr else [])
+        fattrs = [ir.Attr("alpha", ir.AttributeType.FLOAT, 1.0)] if has_attr else []
+        rga = p.get("ref_graph_attrs", 0.0)
+        graph_params = bool(rga) and random.Random(zlib.crc32(fg.name.encode()) ^ 0x5EED).random() < rga and len(fg.outputs) > 0
+        if graph_params:
+            # the function body ends in an If whose branches are the function's own graph-valued attribute parameters
+            # (reference attributes of type GRAPH - legal in function bodies only; every call site passes the graphs)
+            cn = ir.Node("", "Constant", [], [ir.AttrTensor("value", ir.Tensor(np.array(True), name=b.fresh("cb")))], name=b.fresh("n"))
+            cn.outputs[0].name = b.fresh("v")
+            if p["typed"]:
+                cn.outputs[0].type = ir.TensorType(ir.DataType.BOOL)
+                cn.outputs[0].shape = ir.Shape([])
+            ifn = ir.Node("", "If", [cn.outputs[0]], [ir.RefAttr("then_branch", "then_graph", ir.AttributeType.GRAPH), ir.RefAttr("else_branch", "else_graph", ir.AttributeType.GRAPH)], name=b.fresh("n"))
+            ifn.outputs[0].name = b.fresh("v")
+            b._type_out(ifn.outputs[0])
+            add = ir.Node("", "Add", [fg.outputs[0], ifn.outputs[0]], name=b.fresh("n"))
+            add.outputs[0].name = b.fresh("v")
+            b._type_out(add.outputs[0])
+            for n_ in (cn, ifn, add):
+                fg.append(n_)
+                b.all_nodes.append(n_)
+            fg.outputs[0] = add.outputs[0]
+            fattrs += [ir.Attr("then_graph", ir.AttributeType.UNDEFINED, None), ir.Attr("else_graph", ir.AttributeType.UNDEFINED, None)]
+        f = ir.Function("fdom", f"F{i}", "", graph=fg, attributes=fattrs)
+        if graph_params:
+            b.graph_param_functions.add(id(f))
         fg.opset_imports[""] = 20
         fg.opset_imports["fdom"] = 1
         if b.uses_custom:
